@@ -99,22 +99,32 @@ func (e *Env) applyContract(st *State, ct *Contract, args []Val, rt types.Type, 
 	// a callback handed to a callee that is represented by its contract may be invoked by it, any number of times, with
 	// any arguments: under nopanic its body is executed once on symbolic arguments (for its panic-site obligations)
 	// and what it captured by reference is then unknown
-	if e.nopanic && e.specMode == 0 {
+	if e.specMode == 0 {
 		for _, a := range args {
 			if a.K == kClosure && a.Fn != nil && a.Fn.Blocks != nil && isTeleport(a.Fn) && !e.onStack(a.Fn) {
-				e.notes["callback passed to a contracted callee: body checked once on symbolic arguments (panic sites)"]++
-				scratch := st.clone()
-				var cargs []Val
-				if a.Bound != nil {
-					cargs = append(cargs, *a.Bound)
+				if e.nopanic {
+					e.notes["callback passed to a contracted callee: body checked once on symbolic arguments (panic sites)"]++
+					scratch := st.clone()
+					var cargs []Val
+					if a.Bound != nil {
+						cargs = append(cargs, *a.Bound)
+					}
+					for _, prm := range a.Fn.Params[len(cargs):] {
+						cargs = append(cargs, e.symbolic(scratch, prm.Type(), "cb_"+prm.Name()))
+					}
+					savedPaths := e.paths
+					e.inline(scratch, a.Fn, cargs, a.Bind, 1)
+					e.paths = savedPaths
 				}
-				for _, prm := range a.Fn.Params[len(cargs):] {
-					cargs = append(cargs, e.symbolic(scratch, prm.Type(), "cb_"+prm.Name()))
-				}
-				savedPaths := e.paths
-				e.inline(scratch, a.Fn, cargs, a.Bind, 1)
-				e.paths = savedPaths
-				for _, b := range a.Bind {
+				// whether or not its body is looked at: the callee may run the callback, so the variables the callback
+				// captured by reference hold unknown values afterwards (found with the BSC pruning callback, whose
+				// result variables kept their initial nil and made the pruning branch unreachable)
+				e.notes["callback passed to a contracted callee: the variables it captured are unknown after the call"]++
+				mayWrite := closureMayWrite(a.Fn)
+				for i, b := range a.Bind {
+					if i < len(mayWrite) && !mayWrite[i] {
+						continue // only read by the callback
+					}
 					e.havocReach(st, b, "callback", 0)
 				}
 			}
